@@ -352,3 +352,219 @@ func edgeAtom(info *types.Info, e *Edge) (condAtom, bool) {
 	}
 	return condAtom{Kind: "bool", X: inner, True: holds}, true
 }
+
+// ---- feasible reachability ----
+
+// pathDomain tracks just enough to prune infeasible paths in reachability
+// queries: nil-ness of local error variables (nil / non-nil / unknown) and the
+// value of local booleans assigned from constants. It lets a gate be
+// recognised when its failing edge only *records* the failure in a variable
+// that is tested later (typical after a helper was extracted and inlined).
+type pathDomain struct {
+	p     *Prog
+	f     *Func
+	cut   func(*Edge) bool
+	avoid func(*Node) bool
+	// force lets a query assume the value ("N"/"NN") an error variable gets at a
+	// particular definition (e.g. "assume this call failed").
+	force func(n *Node, v *types.Var) string
+}
+
+func (d *pathDomain) Transfer(n *Node, s Store) []Store {
+	if d.avoid != nil && d.avoid(n) {
+		return nil
+	}
+	info := d.f.Pkg.TypesInfo
+	defs, _ := nodeDefsUses(info, n.Ast)
+	as, isAssign := n.Ast.(*ast.AssignStmt)
+	tuple := isAssign && len(as.Rhs) == 1 && len(as.Lhs) > 1
+	type upd struct{ k, v string }
+	var ups []upd
+	for v, rhs := range defs {
+		if v.IsField() || v.Name() == "_" {
+			continue
+		}
+		k := "P:" + varKey(v)
+		switch {
+		case isErrorType(v.Type()):
+			val := "?"
+			switch {
+			case tuple:
+				val = "?"
+			case rhs == nil:
+				if _, isDecl := n.Ast.(*ast.DeclStmt); isDecl {
+					val = "N"
+				}
+			case isNilIdent(info, rhs):
+				val = "N"
+			case d.p.isNonNilExpr(d.f, rhs):
+				val = "NN"
+			default:
+				if rv, ok := identObj(info, rhs).(*types.Var); ok {
+					if cur := s.Get("P:" + varKey(rv)); cur != "" {
+						val = cur
+					}
+				}
+			}
+			if d.force != nil {
+				if fv := d.force(n, v); fv != "" {
+					val = fv
+				}
+			}
+			ups = append(ups, upd{k, val})
+		case types.Identical(v.Type().Underlying(), types.Typ[types.Bool]):
+			val := "?"
+			if !tuple && rhs != nil {
+				if id, ok := ast.Unparen(rhs).(*ast.Ident); ok {
+					if _, isConst := info.Uses[id].(*types.Const); isConst && (id.Name == "true" || id.Name == "false") {
+						val = id.Name
+					}
+				}
+				// b = err == nil / err != nil with known err
+				if be, ok := ast.Unparen(rhs).(*ast.BinaryExpr); ok && (be.Op == token.EQL || be.Op == token.NEQ) && isNilIdent(info, be.Y) {
+					if ev, ok := identObj(info, be.X).(*types.Var); ok {
+						switch s.Get("P:" + varKey(ev)) {
+						case "N":
+							val = map[bool]string{true: "true", false: "false"}[be.Op == token.EQL]
+						case "NN":
+							val = map[bool]string{true: "false", false: "true"}[be.Op == token.EQL]
+						}
+					}
+				}
+			} else if rhs == nil {
+				if _, isDecl := n.Ast.(*ast.DeclStmt); isDecl {
+					val = "false"
+				}
+			}
+			ups = append(ups, upd{k, val})
+		}
+	}
+	for _, u := range ups {
+		if u.v == "?" {
+			s = s.Without(u.k)
+		} else {
+			s = s.With(u.k, u.v)
+		}
+	}
+	return []Store{s}
+}
+
+func (d *pathDomain) Refine(e *Edge, s Store) (Store, bool) {
+	if d.cut != nil && d.cut(e) {
+		return s, false
+	}
+	info := d.f.Pkg.TypesInfo
+	at, ok := edgeAtom(info, e)
+	if !ok {
+		return s, true
+	}
+	switch at.Kind {
+	case "nil":
+		v, ok := identObj(info, at.X).(*types.Var)
+		if !ok || !isErrorType(v.Type()) || v.IsField() {
+			return s, true
+		}
+		k := "P:" + varKey(v)
+		cur := s.Get(k)
+		if at.Op == token.EQL {
+			if cur == "NN" {
+				return s, false
+			}
+			return s.With(k, "N"), true
+		}
+		if cur == "N" {
+			return s, false
+		}
+		return s.With(k, "NN"), true
+	case "bool":
+		v, ok := identObj(info, at.X).(*types.Var)
+		if !ok || v.IsField() {
+			return s, true
+		}
+		k := "P:" + varKey(v)
+		want := "false"
+		if at.True {
+			want = "true"
+		}
+		cur := s.Get(k)
+		if cur != "" && cur != want {
+			return s, false
+		}
+		return s.With(k, want), true
+	}
+	return s, true
+}
+
+// FeasibleReach returns the nodes reachable from starts along paths that are
+// not pruned by pathDomain, never entering avoid nodes nor taking cut edges.
+func (p *Prog) FeasibleReach(f *Func, starts []*Node, avoid func(*Node) bool, cut func(*Edge) bool) map[*Node]bool {
+	return p.FeasibleReachAssuming(f, starts, avoid, cut, nil)
+}
+
+// FeasibleReachAssuming is FeasibleReach under assumptions about the outcome of
+// particular error-producing definitions (see pathDomain.force).
+func (p *Prog) FeasibleReachAssuming(f *Func, starts []*Node, avoid func(*Node) bool, cut func(*Edge) bool, force func(*Node, *types.Var) string) map[*Node]bool {
+	st := p.FeasibleStates(f, starts, NewStore(), avoid, cut, force, nil)
+	out := map[*Node]bool{}
+	for n := range st {
+		out[n] = true
+	}
+	return out
+}
+
+// FeasibleStates is the general form: it returns, for every node reached, the
+// path-domain states in which it is reached, starting from init at starts.
+// Nodes for which stop returns true record their arriving states but are not expanded.
+func (p *Prog) FeasibleStates(f *Func, starts []*Node, init Store, avoid func(*Node) bool, cut func(*Edge) bool, force func(*Node, *types.Var) string, stop func(*Node) bool) map[*Node][]Store {
+	d := &pathDomain{p: p, f: f, cut: cut, avoid: avoid, force: force}
+	seen := map[*Node]map[string]bool{}
+	out := map[*Node][]Store{}
+	type item struct {
+		n *Node
+		s Store
+	}
+	var work []item
+	push := func(n *Node, s Store) {
+		k := s.Key()
+		m := seen[n]
+		if m == nil {
+			m = map[string]bool{}
+			seen[n] = m
+		}
+		if m[k] || len(m) >= stateCap {
+			return
+		}
+		m[k] = true
+		out[n] = append(out[n], s)
+		work = append(work, item{n, s})
+	}
+	isStart := map[*Node]bool{}
+	for _, st := range starts {
+		if st != nil && !(avoid != nil && avoid(st)) {
+			isStart[st] = true
+			push(st, init)
+		}
+	}
+	for len(work) > 0 {
+		it := work[len(work)-1]
+		work = work[:len(work)-1]
+		if stop != nil && stop(it.n) && !isStart[it.n] {
+			continue
+		}
+		outs := []Store{it.s}
+		if it.n.Kind == NNormal {
+			outs = d.Transfer(it.n, it.s)
+		}
+		for _, o := range outs {
+			for _, e := range it.n.Succs {
+				if s2, ok := d.Refine(e, o); ok {
+					if avoid != nil && avoid(e.To) {
+						continue
+					}
+					push(e.To, s2)
+				}
+			}
+		}
+	}
+	return out
+}
